@@ -114,6 +114,11 @@ var loopsCorpus = func() []loopCase {
 		{`\d*(?:b ){1,3}`, I, []string{"12B b ", "b ", "1b2B "}}, // ignore-case string out of a counted group
 		{`\s*(?:ba){2,3}x`, I, []string{" BAbax", "babaBAx", " ba babax"}},
 		{`(\d*?)(?:ax){2,3}[b-c]`, I, []string{"1AXaxb", "axaxaxc"}},
+		// under IgnoreCase the parser coalesces `aa` into the fixed-count set loop [Aa]{2}: the string "aab" is read off
+		// `[Aa]{2}[Bb]`, first iteration of the counted group (C03 thorough seed 5 on main, found by the coordinator)
+		{`[\d\-]+(?:aab){1,2}B\Z`, I, []string{"1-aabB", "12AABaabb", "-aaB", "1aabaab", "7aAbB\n"}},
+		{`[\d\-]+(?:aab)+b`, I, []string{"1-aabB", "1AABAABb", "-aab"}},
+		{`\d*aaab{2}c`, I, []string{"1AAabBc", "aaabbc", "12aabbc"}},
 		// the record comes from the body of a leading positive lookahead
 		{`((?=[a-b]{0,}c))[a-b]?\k<1>`, 0, []string{"abc", "c", "xbac"}},
 		{`(?=[ab]*c)\w*`, 0, []string{"abc", "xabc", "abxc"}},
